@@ -60,7 +60,8 @@ def handle (st0 script fault : String) : Option String := do
   -- `<fault>.<kind>`: the kind of context that is done; the model only knows "the context is done"
   let fault := (fault.splitOn ".").headD fault
   let O ← (fault.splitOn "/").foldlM parsePart quiet
-  let c := run O (2 * sc.length + 8) (init sc)
+  -- state bit 8 (`Received`): the receiving side, `component.ReceiveSession`
+  let c := run O (2 * sc.length + 8) (if st0 &&& 8 != 0 then initRecv sc else init sc)
   let evs := c.tr.reverse.map showEv
   pure s!"{joinList evs} {showOutcome c.pc} {st0 ||| resultMask c}"
 
